@@ -38,6 +38,13 @@ class Str(Model):
     def cap(self):
         return len(self.b)
 
+    # Box<str> internals (`(b.0: Unique<str>).0: NonNull<str>` as *const str, then `*ptr`)
+    def get_field(self, i):
+        return self
+
+    def deref_loc(self, ip):
+        return Loc(Cell(self, 'box-str'))
+
     def bt(self, p):
         x = self.b[p]
         return z3.IntVal(x) if isinstance(x, int) else x
@@ -189,6 +196,13 @@ class StrTok(Model):
 
     def normalised(self):
         return self
+
+    # Box<str> internals (`(b.0: Unique<str>).0: NonNull<str>` as *const str, then `*ptr`)
+    def get_field(self, i):
+        return self
+
+    def deref_loc(self, ip):
+        return Loc(Cell(self, 'box-str'))
 
     def convert(self, ip, dt):
         return self
